@@ -281,6 +281,10 @@ def run_check(prop, tier, seed, replay=None):
     # replay files for new violations
     replay_paths = []
     rdir = os.path.join(VERIF_DIR, "replays", prop)
+    try:
+        ev_commit = subprocess.check_output(["git", "-C", REPO, "rev-parse", "--short", "HEAD"], stderr=subprocess.DEVNULL, text=True).strip()
+    except Exception:
+        ev_commit = None
     dedup = set()
     for v in new:
         if (v["property"], v["key"]) in dedup:
@@ -317,10 +321,14 @@ def run_check(prop, tier, seed, replay=None):
         ev = {
             "property_id": prop, "tier": tier, "seed": int(seed), "level": "exploration",
             "coverage": cov, "assumptions": list(getattr(mod, "ASSUMPTIONS", [])),
-            "wall_s": round(wall, 2), "violations": len(new),
+            "wall_s": round(wall, 2), "violations": len(new), "repo_commit": ev_commit,
         }
-        os.makedirs(os.path.join(VERIF_DIR, "evidence"), exist_ok=True)
-        epath = os.path.join(VERIF_DIR, "evidence", "%s.json" % prop)
+        # evidence/<id>.json is only ever written from runs against /repo itself; development runs against a scratch
+        # copy (VMON_REPO) go to an ignored directory
+        edir = os.path.join(VERIF_DIR, "evidence") if os.path.realpath(REPO) == "/repo" else os.path.join(VERIF_DIR, ".work", "evidence")
+        os.makedirs(edir, exist_ok=True)
+        epath = os.path.join(edir, "%s.json" % prop)
+        ev["repo"] = REPO
         with open(epath + ".tmp", "w") as f:
             json.dump(ev, f, indent=1, sort_keys=True)
         os.replace(epath + ".tmp", epath)
